@@ -12,6 +12,7 @@ EXPLANATION = (
     "xor indexed and no freed node is still reachable. This decides the structural preconditions of the ~40 unsafe sites on all paths; "
     "it assumes the list invariant at function entry, trusts the four pointer stores inside attach/detach, and does not decide "
     "Stacked/Tree-Borrows aliasing (Miri's domain)."
+    " R10 also covers C19.S3: no iterator handing out &mut is Clone or Copy."
 )
 TRUSTED_BASE = ["MIR facts from /verif/factdump", "models of HashMap/Option/Box/MaybeUninit/mem/ptr in rules/lib/absint.py",
                 "attach/detach meet their contracts (derived as the only functions storing to EntryNode.prev/next)",
